@@ -155,19 +155,47 @@ func runCase(c *hCase) (obs string, v *verdicts, nontrivial bool) {
 	return strings.Join(out, " "), v, nontrivial
 }
 
+type anyCase struct {
+	c  *hCase
+	cc *cCase
+}
+
+func (a anyCase) format() string {
+	if a.cc != nil {
+		return fmtCCase(a.cc)
+	}
+	return fmtCase(a.c)
+}
+
+func (a anyCase) run() (string, *verdicts, bool) {
+	if a.cc != nil {
+		return runCCase(a.cc)
+	}
+	return runCase(a.c)
+}
+
+func parseAny(input string) (anyCase, error) {
+	if isCfgCase(input) {
+		cc, err := parseCCase(input)
+		return anyCase{cc: cc}, err
+	}
+	c, err := parseCase(input)
+	return anyCase{c: c}, err
+}
+
 func main() {
 	cfg := hx.Parse()
 	tr := hx.NewTrace(cfg.Out)
 	nviol := 0
-	do := func(id string, c *hCase) {
+	do := func(id string, c anyCase) {
 		var obs string
 		var v *verdicts
 		var nt bool
-		panicked, val := hx.Guard(func() { obs, v, nt = runCase(c) })
+		panicked, val := hx.Guard(func() { obs, v, nt = c.run() })
 		if panicked {
 			obs, v = "PANIC", &verdicts{sigs: []string{"panic:harness"}, details: []string{fmt.Sprint(val)}}
 		}
-		tr.Case(id, nt, fmtCase(c), obs)
+		tr.Case(id, nt, c.format(), obs)
 		for i, s := range v.sigs {
 			hx.Violation(id, s, v.details[i])
 			nviol++
@@ -175,7 +203,7 @@ func main() {
 	}
 	if cfg.Mode == "replay" {
 		for _, in := range hx.InputsFrom(cfg.Replay) {
-			c, err := parseCase(in[1])
+			c, err := parseAny(in[1])
 			if err != nil {
 				fmt.Println("HARNESS-ERROR bad replay input:", err)
 				os.Exit(2)
@@ -184,7 +212,7 @@ func main() {
 		}
 	} else {
 		for _, in := range hx.InputsFrom(hx.CorpusFiles(cfg.Corpus)...) {
-			c, err := parseCase(in[1])
+			c, err := parseAny(in[1])
 			if err != nil {
 				fmt.Println("HARNESS-ERROR bad corpus case", in[0], err)
 				os.Exit(2)
@@ -194,8 +222,16 @@ func main() {
 		}
 		rng := hx.NewRNG(cfg.Seed)
 		for i := 0; i < cfg.N; i++ {
-			do(fmt.Sprintf("g%d", i), genCase(rng.Fork(uint64(i)), tr))
+			r := rng.Fork(uint64(i))
+			if i%4 == 3 { // every fourth case goes through the configuration loader
+				do(fmt.Sprintf("g%d", i), anyCase{cc: genCCase(r, tr)})
+			} else {
+				do(fmt.Sprintf("g%d", i), anyCase{c: genCase(r, tr)})
+			}
 		}
+	}
+	if cfgDir != "" {
+		os.RemoveAll(cfgDir)
 	}
 	tr.Close(cfg.Stats, map[string]interface{}{"spec_violations": nviol})
 }
